@@ -165,6 +165,16 @@ def _compare_observations(sym_obs, con_obs, env, tol=1e-6):
     if len(a) != len(b):
         return 'shape differs: %d vs %d leaves' % (len(a), len(b))
     memo = {}
+    # absolute slack for cancellation: a result that is the small difference of large products (cash = transfers - price x
+    # quantity - fees) carries an absolute double error proportional to the size of the operands, not of the result
+    S = 1.0
+    for v in env.values():
+        if not isinstance(v, bool):
+            try:
+                S = max(S, abs(float(v)))
+            except Exception:
+                pass
+    slack = 1e-12 * S * S
     for (pa, (ka, va)), (pb, (kb, vb)) in zip(a, b):
         if pa != pb:
             return 'structure differs at %s vs %s' % (pa, pb)
@@ -184,7 +194,7 @@ def _compare_observations(sym_obs, con_obs, env, tol=1e-6):
             fv = float(ev)
             if vb != vb or math.isinf(vb):
                 return 'nan/inf in float run at %s' % pa
-            if abs(fv - vb) > tol * (1 + max(abs(fv), abs(vb))):
+            if abs(fv - vb) > tol * (1 + max(abs(fv), abs(vb))) + slack:
                 return 'value differs at %s: symbolic %r vs float run %r' % (pa, fv, vb)
         elif ka == 'undef':
             if not (kb == 'num' and (vb != vb or math.isinf(vb))):
